@@ -683,6 +683,28 @@ theorem allRect_orderSound (d : Defn) (s : St) (h : allRect d s = true) : orderS
   simp only [Bool.not_true, Bool.false_or, beq_iff_eq] at this
   exact ⟨g, hg, this.symm⟩
 
+/-- `orderSound` spelled out without `lastCover`: no rule exported AFTER a cell's own rule covers the cell -/
+theorem orderSound_spec (d : Defn) (s : St) : orderSound d s = true ↔
+    ∀ x f g, x ∈ cells d → f ∈ firsts s (cells d) → g ∈ firsts s (cells d) → s.cid f = s.cid x →
+      covers d (ruleOf d s g) x = true → pos (firsts s (cells d)) g ≤ pos (firsts s (cells d)) f := by
+  rw [orderSound_iff]
+  constructor
+  · intro h x f g hx hf hg hfx hcov
+    obtain ⟨g0, hg0, hgc⟩ := h x hx
+    have hm := (lastCover_mem d s x _ g0 hg0).1
+    have : g0 = f := firsts_inj s _ g0 f hm hf (hgc.trans hfx.symm)
+    subst this
+    exact lastCover_last d s x _ (firsts_nodup s _) g0 hg0 g hg hcov
+  · intro h x hx
+    obtain ⟨f, hf, hfx⟩ := firsts_rep s (cells d) x hx
+    obtain ⟨g0, hg0⟩ := lastCover_total d s x hx
+    obtain ⟨hm, hcov⟩ := lastCover_mem d s x _ g0 hg0
+    have h1 := h x f g0 hx hf hm hfx hcov
+    have h2 := lastCover_last d s x _ (firsts_nodup s _) g0 hg0 f hf
+      (covers_own d s f x (firsts_sub s _ f hf) hx hfx.symm)
+    have : g0 = f := pos_inj _ g0 f hm hf (by omega)
+    exact ⟨g0, hg0, by rw [this, hfx]⟩
+
 /-! ### every state reached by `set_param_rule` calls is well formed -/
 
 /-- ids in use are below the fresh-id counter, and every Var in use is within its bounds -/
